@@ -56,20 +56,35 @@ func parseName(s string) int {
 // project turns a delivered node into (name, ids, child instances): children whose name starts
 // with 'c' are id columns/elements, every other element child is a child instance.
 func project(n *idr.Node) *Inst {
+	budget := 20000
+	return projectN(n, 0, &budget)
+}
+
+// projectN is defensive: a corrupted (cyclic / shared) node graph must not take the harness down.
+func projectN(n *idr.Node, depth int, budget *int) *Inst {
 	in := &Inst{Name: parseName(n.Data)}
+	if depth > 40 {
+		panic("delivered node tree deeper than 40 levels (cyclic?)")
+	}
 	for c := n.FirstChild; c != nil; c = c.NextSibling {
+		*budget--
+		if *budget < 0 {
+			panic("delivered node tree has more than 20000 nodes (cyclic?)")
+		}
 		if c.Type != idr.ElementNode {
 			continue
 		}
 		if len(c.Data) > 0 && c.Data[0] == 'c' {
-			id, err := strconv.Atoi(c.InnerText())
-			if err != nil {
-				id = -1
+			id := -1
+			if t := c.FirstChild; t != nil && t.Type == idr.TextNode {
+				if v, err := strconv.Atoi(t.Data); err == nil {
+					id = v
+				}
 			}
 			in.IDs = append(in.IDs, id)
 			continue
 		}
-		in.Kids = append(in.Kids, project(c))
+		in.Kids = append(in.Kids, projectN(c, depth+1, budget))
 	}
 	return in
 }
